@@ -20,7 +20,7 @@ PH == MaxC
 Init == /\ v = VpResize([px |-> 0, py |-> 0, vx |-> 0, vy |-> 0, lx |-> 2, ly |-> 2, w |-> 0, h |-> 0, locked |-> FALSE], PW, PH, 0, 0, 2, 2)
         /\ hist = <<>> /\ movedx = FALSE /\ movedy = FALSE
 
-Ops == [op : {"ScrollUp", "ScrollDown", "ScrollLeft", "ScrollRight"}, n : 0..MaxC]
+Ops == [op : {"ScrollUp", "ScrollDown", "ScrollLeft", "ScrollRight"}, n : (-2)..MaxC]     \* negative amounts scroll the other way
        \cup [op : {"Center", "MakeVisible", "SetContent"}, x : C, y : C]
        \cup [op : {"SetSize"}, w : 0..MaxC, h : 0..MaxC]
        \cup [op : {"SetContentSize"}, w : 0..MaxC, h : 0..MaxC, locked : BOOLEAN]
